@@ -79,5 +79,46 @@ def rules(ctx, db):
         ctx.ob("R4", "all-three-results-propagated", len(brs) >= 3, "status, stdout and stderr errors are each propagated", f)
 
 
+def rule_stdio_setup(ctx, db):
+    from ..util import receiver_field
+    R = ctx.rule
+    R("R5", "ORD", "wait / wait_with_output release the child's stdin before they wait (a child reading its input to end-of-file "
+      "can exit); Command::output pipes stdout and stderr before it spawns (there is something to collect)")
+    if not any(f.id.startswith(CP) for f in db.fns.values()):
+        return
+    for nm in ("wait", "wait_with_output"):
+        fam = [f for f in db.fns.values() if f.kind == "coroutine" and db.root_fn(f).name == "compio_process::Child::" + nm]
+        if not fam:
+            ctx.missing("R5", "Child::" + nm)
+        for f in fam:
+            cw = [bb for bb, _ in calls(f, r"child_wait$")]
+            # the stdin handle leaves the Child: Option::take on the field (then dropped), or a drop of the field itself
+            tk = [bb for bb, t in calls(f, r"core::option::Option::<T>::take$") if any("stdin" in x for x in receiver_field(f, t))]
+            dp = []
+            for bi, b in enumerate(f.blocks):
+                t = b["t"]
+                if t["k"] == "drop" and any(isinstance(e, list) and e[0] == "f" and e[2] == "stdin" for e in (t.get("pl") or {}).get("p", [])):
+                    dp.append(bi)
+            rel = tk + dp
+            ctx.ob("R5", "stdin-released-before-the-wait:" + nm, bool(cw) and bool(rel) and all(any(f.cfg.dominates(r, c) for r in rel) for c in cw),
+                   "the child's stdin handle is taken out of the Child and dropped before child_wait is started", f)
+    out = [f for f in db.fns.values() if f.kind == "coroutine" and db.root_fn(f).name == "compio_process::Command::output"]
+    if not out:
+        ctx.missing("R5", "Command::output")
+    for f in out:
+        sp = [bb for bb, _ in calls(f, r"compio_process::Command::spawn$")]
+        so = [bb for bb, _ in calls(f, r"std::process::Command::stdout$")]
+        se = [bb for bb, _ in calls(f, r"std::process::Command::stderr$")]
+        pp = calls(f, r"std::process::Stdio::piped$")
+        ctx.ob("R5", "output-pipes-stdout-and-stderr", bool(sp) and bool(so) and bool(se) and len(pp) >= 2 and
+               all(any(f.cfg.dominates(a, c) for a in so) and any(f.cfg.dominates(a, c) for a in se) for c in sp),
+               "stdout and stderr are set to Stdio::piped() before the child is spawned", f)
+
+
+def rules_all(ctx, db):
+    rules(ctx, db)
+    rule_stdio_setup(ctx, db)
+
+
 def check(tier):
-    return engine.run("C20", tier, rules, NOT_DECIDED, [])
+    return engine.run("C20", tier, rules_all, NOT_DECIDED, [])
